@@ -784,41 +784,6 @@ func c16numericDocs() [][]*TNode {
 	return docs
 }
 
-// c16reuseKey: narrow matcher of the finding "Engine.Evaluate prepends the DocumentN statements on
-// every call": the reused engine's result is a list of strings that is the fresh result plus
-// further "DocumentN" entries (what `?` lists), and nothing else differs.
-func c16reuseKey(reuse string) string {
-	i := strings.Index(reuse, "): value ")
-	j := strings.Index(reuse, " / fresh: value ")
-	if i < 0 || j < 0 {
-		return ""
-	}
-	got, ok1 := c16items(c15Obs{Top: "value", JSON: reuse[i+len("): value ") : j]})
-	want, ok2 := c16items(c15Obs{Top: "value", JSON: reuse[j+len(" / fresh: value "):]})
-	if !ok1 || !ok2 || len(got) <= len(want) {
-		return ""
-	}
-	count := map[string]int{}
-	for _, w := range want {
-		count[w]++
-	}
-	for _, g := range got {
-		if count[g] > 0 {
-			count[g]--
-			continue
-		}
-		if !strings.HasPrefix(unhex(strings.TrimPrefix(g, "s")), "Document") {
-			return ""
-		}
-	}
-	for _, n := range count {
-		if n != 0 {
-			return ""
-		}
-	}
-	return "reused-engine-lists-documents-twice"
-}
-
 // c16candidates: smaller variants of a query — one statement or one pipeline stage dropped
 // (split only at top level: not inside brackets, braces or strings).
 func c16candidates(q string) []string {
@@ -1325,7 +1290,7 @@ func init() {
 			}
 			c.Tie(c15req(pool, j), o.line("j"))
 			if j.Mode == "r" && o.Reuse != "same" && o.Reuse != "" {
-				c.Oracle(c16reuseKey(o.Reuse), "a compiled query that was already evaluated on another document gives another result than a freshly compiled one",
+				c.Oracle("", "a compiled query that was already evaluated on another document gives another result than a freshly compiled one",
 					map[string]interface{}{"query": j.Query, "first_document": pool[j.Docs[0]].Text, "second_document": pool[j.Docs[1]].Text}, o.Reuse, "same")
 			}
 			if o.Top == "value" {
